@@ -139,6 +139,7 @@ def render(items, r=None):
             it.off = r.emit(s)
             r.emit(it.sep)
         elif isinstance(it, Cond):
+            it.line = r.line
             for i, (name, body) in enumerate(it.branches):
                 kw = ('`ifndef ' if it.neg else '`ifdef ') if i == 0 else '`elsif '
                 r.emit(kw + name + '\n')
@@ -146,6 +147,7 @@ def render(items, r=None):
             if it.els is not None:
                 r.emit('`else\n')
                 render(it.els, r)
+            it.end_line = r.line
             r.emit('`endif' + it.end_sep)
         else:
             raise TypeError(it)
@@ -224,13 +226,30 @@ def ref_value(st, name):
     return v
 
 
+def _line_of(x):
+    if isinstance(x, Cond):
+        return getattr(x, 'line', None)
+    return getattr(x, 'line', None)
+
+
 def split_ws(s):
     return s.split()
 
 
 def ref_eval(st, items, file, files=None, strip=False, expander=None, ignore_include=False, include_paths=()):
     """evaluate items (active region) appending expected tokens to st.out"""
+    prev_kind = None
     for x in items:
+        # IEEE 22.4: only white space or a comment may share the line of an `include
+        if isinstance(x, (T, Use, Def, Undef, UndefAll, Kept, Cond, Inc)):
+            if st.last_include_line is not None and st.last_include_line == (file, _line_of(x)):
+                raise RefError('IncludeLine')
+        if isinstance(x, (T, Use, Def, Undef, UndefAll, Kept)) or (isinstance(x, Inc) and ignore_include):
+            if isinstance(x, T) and prev_kind is T and 'include_line_uses_piece_start' in st.quirks:
+                pass    # emulation of (fixed) finding F8: a text run is recorded with the line it STARTS on
+            else:
+                st.last_item_line = (file, _line_of(x))
+        prev_kind = type(x)
         if isinstance(x, T):
             st.out.append(Tok(x.tok, ('src', file, x.off)))
         elif isinstance(x, Com):
@@ -297,13 +316,22 @@ def ref_eval(st, items, file, files=None, strip=False, expander=None, ignore_inc
                 taken = x.els
             if taken is not None:
                 ref_eval(st, taken, file, files, strip, expander, ignore_include, include_paths)
+            st.last_item_line = (file, x.end_line)
         elif isinstance(x, Inc):
             if ignore_include:
                 if x.style not in ('"', '<'):
                     # macro-named file: the usage is still expanded as an ordinary macro usage
                     raise RuntimeError('ignore_include with macro-named include: not in the reference')
                 continue
-            ref_include(st, x, file, strip, expander, include_paths)
+            if st.last_item_line is not None and st.last_item_line == (file, x.line):
+                raise RefError('IncludeLine')
+            st.last_include_line = (file, x.line)
+            saved = (st.last_item_line, st.last_include_line)
+            st.last_item_line = st.last_include_line = None
+            try:
+                ref_include(st, x, file, strip, expander, include_paths)
+            finally:
+                st.last_item_line, st.last_include_line = saved
         else:
             raise TypeError(x)
 
